@@ -1,0 +1,70 @@
+// SPDX-License-Identifier: BSL-1.0
+
+#ifndef TETL_CSTDLIB_STRTO_INTEGER_HPP
+#define TETL_CSTDLIB_STRTO_INTEGER_HPP
+
+#include <etl/_cctype/isspace.hpp>
+#include <etl/_concepts/integral.hpp>
+#include <etl/_concepts/signed_integral.hpp>
+#include <etl/_cstddef/size_t.hpp>
+#include <etl/_limits/numeric_limits.hpp>
+#include <etl/_string_view/basic_string_view.hpp>
+#include <etl/_strings/to_integer.hpp>
+#include <etl/_type_traits/make_unsigned.hpp>
+
+namespace etl::detail {
+
+/// \brief The conversion shared by strtol, strtoll, strtoul, strtoull and the
+/// sto* functions. Splits the subject sequence of the C standard (white space,
+/// optional sign, digits), lets strings::to_integer
+/// convert the digits as a magnitude and applies the sign in the result type.
+///
+/// - the unsigned functions negate the value of a sequence with a minus sign
+/// - without any digits, or with a value outside the result type, end is
+///   str.data() and value is 0
+template <integral Int>
+[[nodiscard]] constexpr auto strto_integer(string_view str, int base) noexcept -> strings::to_integer_result<Int>
+{
+    using UInt     = make_unsigned_t<Int>;
+    using limits   = numeric_limits<Int>;
+    using result_t = strings::to_integer_result<Int>;
+    using strings::to_integer_error;
+
+    constexpr auto checked = strings::to_integer_options{
+        .skip_whitespace = false,
+        .check_overflow  = true,
+        .allow_plus_sign = false,
+    };
+
+    auto const length = str.size();
+    auto pos          = size_t{0};
+    while (pos != length and etl::isspace(static_cast<int>(str[pos])) != 0) {
+        ++pos;
+    }
+
+    auto negative = false;
+    if (pos != length and (str[pos] == '-' or str[pos] == '+')) {
+        negative = str[pos] == '-';
+        ++pos;
+    }
+
+    auto const digits    = str.substr(pos);
+    auto const magnitude = strings::to_integer<UInt, checked>(digits, static_cast<UInt>(base));
+    if (magnitude.error != to_integer_error::none) {
+        return result_t{.end = str.data(), .error = magnitude.error};
+    }
+
+    if constexpr (signed_integral<Int>) {
+        auto const limit = static_cast<UInt>(static_cast<UInt>(limits::max()) + static_cast<UInt>(negative ? 1 : 0));
+        if (magnitude.value > limit) {
+            return result_t{.end = str.data(), .error = to_integer_error::overflow};
+        }
+    }
+
+    auto const value = negative ? static_cast<Int>(UInt{0} - magnitude.value) : static_cast<Int>(magnitude.value);
+    return result_t{.end = magnitude.end, .error = to_integer_error::none, .value = value};
+}
+
+} // namespace etl::detail
+
+#endif // TETL_CSTDLIB_STRTO_INTEGER_HPP
